@@ -26,6 +26,7 @@ type C10Scn struct {
 	Clock    int      `json:"clock_moves"`   // clock advances the scheduler may take
 	HooksLate bool    `json:"hooks_late,omitempty"`   // the hooks are assigned after Refresh, not before
 	ConLayout string  `json:"console_layout,omitempty"` // sync/async: a second reference to a Console appender with this layout
+	Rolling  bool     `json:"rolling_ref,omitempty"` // sync/async: one more reference, to a RollingFile appender (a component with a clock of its own)
 	Style    Style    `json:"style"`
 }
 
@@ -73,6 +74,7 @@ func (c10) Gen(rt *rapid.T, thorough bool) any {
 	s.Clock = rapid.IntRange(0, 3).Draw(rt, "clock")
 	s.HooksLate = rapid.IntRange(0, 3).Draw(rt, "hooks_late") == 0
 	s.ConLayout = rapid.SampledFrom([]string{"", "JSONLayout", "TextLayout"}).Draw(rt, "con_layout")
+	s.Rolling = rapid.IntRange(0, 3).Draw(rt, "rolling_ref") == 0
 	return s
 }
 
@@ -97,6 +99,11 @@ func (c10) Run(x *Exec, scn any) {
 			// a second reference with the same (absent) bounds: both receive every enabled event
 			spec.Apps = append(spec.Apps, AppSpec{Name: "con", Type: "Console", Layout: s.ConLayout})
 			spec.Logs[0].Refs = append(spec.Logs[0].Refs, RefSpec{Ref: "con"})
+		}
+		if s.Rolling {
+			x.FS.MkdirAll("/logs")
+			spec.Apps = append(spec.Apps, AppSpec{Name: "roll", Type: "RollingFile", FileDir: "/logs", FileName: "c10.log", Rotation: "h", MaxAge: 100000})
+			spec.Logs[0].Refs = append(spec.Logs[0].Refs, RefSpec{Ref: "roll"})
 		}
 		cfg := spec.Render()
 		var err error
@@ -166,6 +173,9 @@ func (c10) Run(x *Exec, scn any) {
 	enabledN, disabledN := 0, 0
 	hooks.mu.Lock()
 	defer hooks.mu.Unlock()
+	if len(hooks.foreign) > 0 {
+		o.violate("hook-foreign-context", "C10/hook-invoked-with-a-context-that-is-no-callers", "%d hook invocations received a context that belongs to no logging call of this run (first: %s)", len(hooks.foreign), hooks.foreign[0])
+	}
 	for t := range calls {
 		for _, c := range calls[t] {
 			sb := c.sb
@@ -203,6 +213,9 @@ func (c10) Run(x *Exec, scn any) {
 			// "with the caller's context": a context is request-scoped, what it reaches may be
 			// recycled once the call has returned, so the hooks have to run on the caller's
 			// goroutine during the call, not later on a worker
+			if bad := hooks.ctxBad[k]; len(bad) > 0 {
+				o.violate("hook-context-state", "C10/hook-context-is-not-the-callers", "%s: %s", sb.ID, bad[0])
+			}
 			for _, who := range hooks.byTask[k] {
 				if who != fmt.Sprintf("client%d", sb.Task) {
 					o.violate("hook-off-caller", "C10/hook-invoked-outside-the-logging-call", "%s: a context hook for this call ran on task %q, not on the calling goroutine during the call", sb.ID, who)
@@ -259,6 +272,30 @@ func (c10) Run(x *Exec, scn any) {
 					o.violate("record-content", "C10/record-content/builtin", "%s: console line %q does not carry the hook results (time hook set=%v, ctx %q)", sb.ID, short(string(got), 200), s.TimeHook, wantCtx)
 				}
 				continue
+			}
+			if s.ConLayout != "" && len(wantFlds) > len(sb.Fields) {
+				// independent of the layout code: the context fields, as the field encoder renders
+				// them, stand in the line ahead of the call's own fields
+				encode := func(fs []log.Field) string {
+					var b bytes.Buffer
+					if s.ConLayout == "JSONLayout" {
+						e := log.NewJSONEncoder(&b)
+						e.AppendEncoderBegin()
+						log.EncodeFields(e, fs)
+						e.AppendEncoderEnd()
+						return strings.TrimSuffix(strings.TrimPrefix(b.String(), "{"), "}")
+					}
+					e := log.NewTextEncoder(&b, "||")
+					e.AppendEncoderBegin()
+					log.EncodeFields(e, fs)
+					e.AppendEncoderEnd()
+					return b.String()
+				}
+				line := string(stdout[sb.ID])
+				ci, fi := strings.Index(line, encode(wantFlds[:len(wantFlds)-len(sb.Fields)])), strings.LastIndex(line, encode(sb.Fields))
+				if ci < 0 || fi < 0 || ci > fi {
+					o.violate("record-content", "C10/record-content/context-fields-missing-from-line/"+s.ConLayout, "%s: the console line %q does not carry the context fields %s ahead of the call's fields", sb.ID, short(line, 300), encode(wantFlds[:len(wantFlds)-len(sb.Fields)]))
+				}
 			}
 			if s.ConLayout != "" && s.TimeHook {
 				ref := *sb
